@@ -166,6 +166,14 @@ def parseEv (l : String) : Ev :=
   else if l.startsWith "sanitizer " then .sanitizer (l.drop 10).toString
   else if l.startsWith "crash " then .crash (l.drop 6).toString
   else if l.startsWith "stack " || l.startsWith "progs " then .info l
+  else if l.startsWith "reent " then
+    let kv (key : String) : String :=
+      match (toks l).find? (·.startsWith (key ++ "=")) with
+      | some t => (t.drop (key.length + 1)).toString
+      | none => ""
+    match (kv "tests").toNat?, (kv "bad").toNat? with
+    | some t, some b => .reent t b (kv "first")
+    | _, _ => .malformed l
   else .malformed l
 
 /-- `expect-abort <trace line>`: annotation carried by the witness inputs of OPEN KNOWN FINDINGS that need a whole
@@ -174,6 +182,11 @@ def modelEventsAux (lim : Limits) (scfg : StackCfg) : Option String → List Str
   | _, [] => []
   | pending, l :: rest =>
     if l.startsWith "expect-abort " then modelEventsAux lim scfg (some (l.drop 13).toString) rest
+    else if l.startsWith "reent-expect " then
+      -- the next program runs this many re-entrancy tests and every result equals its LPC reference
+      match ((l.drop 13).toString.trimAscii.toString).toNat? with
+      | some n => Ev.reent n 0 "" :: modelEventsAux lim scfg pending rest
+      | none => Ev.malformed l :: modelEventsAux lim scfg pending rest
     else
       match pending, l.startsWith "run " with
       | some t, true => [parseEv t]
@@ -192,6 +205,7 @@ def render : Ev → String
   | .sanitizer w => "sanitizer " ++ w
   | .crash w => "crash " ++ w
   | .malformed l => "bad-line " ++ l
+  | .reent t b f => s!"reent tests={t} bad={b}" ++ (if f.isEmpty then "" else " first=" ++ f)
 
 def runModel (lines : List String) : List String :=
   (modelEvents {} {} lines).map render
